@@ -24,7 +24,7 @@ def run(ctx):
         ctx.tlc_mc("MC_UDPSessions", "MC_UDPSessions_live.cfg", timeout=1500)
     scns = ctx.tlc_gen("MC_UDPSessions", "Gen_UDPSessions.cfg", num=400 if T else 60, depth=150, timeout=600)
     ctx.write_scenarios("udpsess", scns)
-    ctx.go_test("core", "./server/", "TestVerif_C07$", ["harness/core/server/c07_test.go"])
+    ctx.go_test("core", "./server/", "TestVerif_C07$", ["harness/core/server/c07_test.go"], timeout=240)
     ctx.validate("Prop_C07", sig=sig, distinct=distinct)
     ctx.assumptions += ["time advances only at quiescence (synctest bubble); races are explored within one virtual instant",
                         "'traffic' is any datagram for the session ID (also an incomplete fragment or one to a denied destination) and any packet read from the session's socket"]
